@@ -2,6 +2,7 @@ CONSTANTS
   Depth = 4
   MaxOpNs = {0, 3}
   NoNoops = TRUE
+  BigCuts = {"inkey", "lastbyte", "between", "afterid", "aftersize", "firstbyte"}
   Families = {"bit", "time", "clear", "value", "keyed", "roaring", "import", "importkeyed", "importvalue", "rowop"}
 INIT Init
 NEXT Next
